@@ -165,6 +165,11 @@ def run_dm1(case):
     dm1 = j.Dm1(sca)
     t0 = 0.02
     sim.at(t0, dm1.start_send, cb, cycle)
+    # in some cases the application starts the same Dm1 object a second time with another cycle time (two timers on one callback): one
+    # stop_send ends both
+    double_start = (not overrun) and random.Random(case['seed'] ^ 0xD5).random() < 0.12
+    if double_start:
+        sim.at(t0 + 0.001, dm1.start_send, cb, round(cycle * 1.37, 3))
     # the sending application also broadcasts another long parameter group now and then, possibly while a DM1 is on its way (J1939-21 allows
     # one broadcast per source at a time: the stack may refuse it, but a DM1 it has begun must arrive as supplied)
     other_tx = []
@@ -215,8 +220,8 @@ def run_dm1(case):
     W.run(t_end)
     # a DM1 cycle that comes due while another broadcast of the same source is running may be skipped on J1939-21 (as in the overrun cases):
     # what arrives must equal exactly one supplied cycle, in order
-    relaxed = overrun or (bool(other_tx) and not fd)
-    obs = dict(other_broadcasts=0, receiver_without_address=0, stopped_inside_callback=0, dm1_cycles_compared=0, dtcs_compared=0, stop_observed=0, overrun_cases=0, dm22_frames=0, dtc_codec_values=0, lamp_combinations_max=len(set(tuple(x) for x in case['lamps'])))
+    relaxed = overrun or (bool(other_tx) and not fd) or double_start
+    obs = dict(double_start_cases=0, other_broadcasts=0, receiver_without_address=0, stopped_inside_callback=0, dm1_cycles_compared=0, dtcs_compared=0, stop_observed=0, overrun_cases=0, dm22_frames=0, dtc_codec_values=0, lamp_combinations_max=len(set(tuple(x) for x in case['lamps'])))
     M.m_live(viol, W, layer)
     if stopped.get('exc'):
         viol.add('stop_raised', 'stop_send raised %s' % stopped['exc'], **tag)
@@ -240,7 +245,10 @@ def run_dm1(case):
     obs['stopped_inside_callback'] = 1 if stopped.get('inside') else 0
     obs['other_broadcasts'] = len(other_tx)
     obs['receiver_without_address'] = 1 if noaddr_rx else 0
-    if n_at_stop not in (ncycles, ncycles + 1):          # the first DM1 may go out at start_send or one cycle later
+    obs['double_start_cases'] = 1 if double_start else 0
+    if double_start:
+        pass          # two timers: the number of cycles is not the point, the end is
+    elif n_at_stop not in (ncycles, ncycles + 1):          # the first DM1 may go out at start_send or one cycle later
         viol.add('dm1_cycle_count', '%d DM1 cycles ran in %d cycle times before stop_send' % (n_at_stop, ncycles), **tag)
     # 2. subscribers got every cycle exactly, in order
     for i in range(nrx):
@@ -256,8 +264,12 @@ def run_dm1(case):
         if relaxed:
             obs['overrun_cases'] = 1 if overrun else 0
             idx = 0
+            used_k = set()
             for r in rec:
-                k = next((k for k in range(idx, len(sent)) if (r[2], r[3]) == (sent[k][1], sent[k][2])), None)
+                # (two timers: overlapping cycles of one callback, on J1939-22 even concurrent broadcast sessions of which a shorter later one may finish
+                #  first -- any order then, each supplied cycle at most once)
+                lo_k = 0 if double_start else idx
+                k = next((k for k in range(lo_k, len(sent)) if k not in used_k and (r[2], r[3]) == (sent[k][1], sent[k][2])), None)
                 obs['dm1_cycles_compared'] += 1
                 obs['dtcs_compared'] += len(r[3])
                 if k is None:
@@ -266,6 +278,7 @@ def run_dm1(case):
                              % (cycle, dur, i, len(r[3]), tagv, idx), how='mixed', **tag)
                     break
                 idx = k + 1
+                used_k.add(k)
             if sent and not rec and overrun:          # (with other broadcasts every one of a few cycles may legitimately have been refused)
                 viol.add('dm1_delivery_count', 'overrun: subscriber %d got no DM1 at all for %d cycles' % (i, len(sent)), how='missing', **tag)
             continue
@@ -306,13 +319,15 @@ def run_dm1(case):
     if relaxed:
         idx = 0
         encs = [C.dm1_payload(s[1], s[2]) for s in sent]
+        used_w = set()
         for (t, payload) in wire:
-            k = next((k for k in range(idx, len(encs)) if encs[k] == payload), None)
+            k = next((k for k in range(0 if double_start else idx, len(encs)) if k not in used_w and encs[k] == payload), None)
             if k is None:
                 viol.add('dm1_wire', 'overrun (cycle %.3f s < transfer %.3f s): the DM1 that started on the bus at %.3f (%s) is the J1939-73 encoding of no cycle the callback supplied from #%d on'
                          % (cycle, dur, t, 'incomplete' if payload is None else '%d bytes' % len(payload), idx), how='mixed', **tag)
                 break
             idx = k + 1
+            used_w.add(k)
         wire = []
     elif stopped.get('inside') and not restart and len(wire) == len(sent) - 1:
         pass
